@@ -12,7 +12,7 @@
 From Coq Require Import List ZArith Bool.
 Import ListNotations.
 From Goat Require Import Model.Client Proofs.ClientBase Proofs.ClientInv Proofs.ClientLive Proofs.ClientLog Proofs.ClientRoute Proofs.ClientFin.
-From Goat Require Model.Server Proofs.ServerProofs Proofs.ServerInv Proofs.ServerLive.
+From Goat Require Model.Server Proofs.ServerProofs Proofs.ServerInv Proofs.ServerLive Proofs.ServerRelease.
 Open Scope Z_scope.
 
 (* bounded: in EVERY reachable state the registry and the stream-loop goroutines are no more than the calls
@@ -76,6 +76,89 @@ Print Assumptions C14_server_idle.
 
 (* ... and so are the goroutines: writer waiting, all workers idle, no handler goroutine (Props/C12.v C12_never_stalls);
    after the end of the connection nothing at all is left (Props/C10.v C10_no_leak). *)
+
+(* released, per RPC and in EVERY reachable state (no "every handler has returned"): a handler whose goroutine has
+   ended - unary: the handler function returned; stream: the trailer (or its loss to a done context) is handed over and
+   unregisterStream ran - holds nothing on the connection: no registry entry, no goroutine, no worker, no envelope in
+   the read loop's hands; an entry under its id, if there is one, belongs to another, LIVE handler (the id reused) *)
+Theorem C14_server_released : forall ls s, Server.lrun Server.init ls = Some s ->
+  forall h k, nth_error (Server.hs s) h = Some k -> Server.h_pc k = Server.HDead ->
+    Server.h_reg k = false /\ Server.hs_alive k = false
+    /\ (forall w, nth_error (Server.wk s) w <> Some (Server.WkRun h))
+    /\ (forall f, Server.rd s <> Server.RdFwd h f)
+    /\ (forall g, Server.find_reg (Server.fid (Server.h_req k)) (Server.hs s) 0 = Some g ->
+          g <> h /\ exists kg, nth_error (Server.hs s) g = Some kg /\ Server.hs_alive kg = true).
+Proof. intros ls s H h k. exact (ServerRelease.srv_released_when_ended Server.nworkers s h k (ServerInv.inv_reach Server.nworkers ls s H)). Qed.
+Print Assumptions C14_server_released.
+
+(* between the hand-over of the trailer and that state lies ONE step, unregisterStream, and it waits for the registry
+   lock only: whenever the read loop does not hold the lock the step is enabled, and it ends the goroutine and
+   deletes the entry ([hunregister]: cancelled, done signalled, not registered) *)
+Theorem C14_server_release_enabled : forall ls s, Server.lrun Server.init ls = Some s ->
+  forall h k, nth_error (Server.hs s) h = Some k -> Server.h_pc k = Server.HUnreg -> Server.mu_free s = true ->
+    exists s', Server.r_h_unreg h s = Some s'
+      /\ nth_error (Server.hs s') h = Some (Server.hunregister (Server.hset_pc k Server.HDead))
+      /\ length (Server.hs s') = length (Server.hs s).
+Proof. intros ls s H h k. exact (ServerRelease.srv_release_enabled Server.nworkers s h k (ServerInv.inv_reach Server.nworkers ls s H)). Qed.
+Print Assumptions C14_server_release_enabled.
+
+(* (Q) per RPC: wherever the connection is at rest, a stream handler that has returned - whatever the other handlers
+   do - is gone (hence released, C14_server_released), provided the transport does not block writes (or the connection
+   is over) and the read loop is not parked, holding the registry lock, on ANOTHER stream whose handler does not drain
+   its queue. The proviso is needed: C14_server_release_refuted. *)
+Theorem C14_server_released_Q : forall ls s, Server.lrun Server.init ls = Some s -> Server.quiescent s = true ->
+  forall h k, nth_error (Server.hs s) h = Some k -> Server.h_returned k = true ->
+    Server.wblock s = false \/ Server.hctx_done s = true ->
+    (forall g f, Server.rd s = Server.RdFwd g f -> g = h) ->
+    Server.h_pc k = Server.HDead.
+Proof. intros ls s H Q h k. exact (ServerRelease.srv_released_Q Server.nworkers s h k (ServerInv.inv_reach Server.nworkers ls s H) Q). Qed.
+Print Assumptions C14_server_released_Q.
+
+(* bounded, always: every collection of a server connection is bounded by the number of LIVE stream handlers plus
+   constants - the registry (exactly that number), the envelopes in the streams' capacity-1 queues, the goroutines
+   (read loop, writer, 8 workers, one per live stream), the envelopes in the hands of read loop / writer / workers
+   (the channels are unbuffered). ([hs s] itself is the model's history of handlers, not a collection of the code.) *)
+Theorem C14_server_collections_bounded : forall ls s, Server.lrun Server.init ls = Some s ->
+  Server.registry_size s = ServerRelease.live_streams s
+  /\ (ServerRelease.queued_frames s <= ServerRelease.live_streams s)%nat
+  /\ (ServerRelease.goroutines s <= ServerRelease.live_streams s + 8 + 2)%nat
+  /\ (ServerRelease.in_hands s <= 8 + 2)%nat.
+Proof. intros ls s H. exact (ServerRelease.srv_collections_bounded Server.nworkers s (ServerInv.inv_reach Server.nworkers ls s H)). Qed.
+Print Assumptions C14_server_collections_bounded.
+
+(* non-vacuity, server side. Stream 1's handler sits in RecvMsg (live, registered), stream 2's handler has returned, a
+   unary request was answered: at rest the two finished handlers are dead and released while stream 1 is still held *)
+Definition sv_mk (id : Z) (k : Server.mkind) (b : option Z) : Server.frame :=
+  Server.mkFrame (mkEnv id (Some (MdOk 0)) None b None false) k 2 1.
+Definition sv_st (acts : list Server.act) : Server.state :=
+  match Server.lrun Server.init (ServerLive.labels_of acts) with Some s => s | None => Server.init end.
+Definition sv_ex : list Server.act :=
+  [ Server.ADeliver (sv_mk 1 (Server.MStream 3) None); Server.ADeliver (sv_mk 2 (Server.MStream 3) None);
+    Server.AHandlerStep 0 Server.HRecv; Server.ADeliver (sv_mk 7 (Server.MUnary 1) (Some 5));
+    Server.AHandlerStep 1 (Server.HReturn None Server.HNil); Server.AHandlerStep 2 (Server.HReturn (Some 6) Server.HNil) ].
+Example C14_server_ex :
+  exists s, Server.lrun Server.init (ServerLive.labels_of sv_ex) = Some s /\ Server.quiescent s = true
+    /\ Server.wblock s = false /\ Server.rd s = Server.RdRead
+    /\ map Server.h_returned (Server.hs s) = [false; true; true]
+    /\ map (fun k => match Server.h_pc k with Server.HDead => true | _ => false end) (Server.hs s) = [false; true; true]
+    /\ Server.registry_size s = 1%nat /\ ServerRelease.live_streams s = 1%nat /\ ServerRelease.goroutines s = 11%nat.
+Proof. exists (sv_st sv_ex). vm_compute. repeat split. Qed.
+
+(* the proviso of C14_server_released_Q is needed: stream 1's handler never receives, two messages for it arrive - the
+   read loop parks on its full queue holding the registry lock -, stream 2's handler returns: at rest it has handed its
+   trailer over but cannot unregister *)
+Definition sv_refute : list Server.act :=
+  [ Server.ADeliver (sv_mk 1 (Server.MStream 3) None); Server.ADeliver (sv_mk 2 (Server.MStream 3) None);
+    Server.ADeliver (sv_mk 1 (Server.MStream 3) (Some 11)); Server.ADeliver (sv_mk 1 (Server.MStream 3) (Some 12));
+    Server.AHandlerStep 1 (Server.HReturn None Server.HNil) ].
+Example C14_server_release_refuted :
+  exists s k, Server.lrun Server.init (ServerLive.labels_of sv_refute) = Some s /\ Server.quiescent s = true
+    /\ Server.wblock s = false /\ nth_error (Server.hs s) 1 = Some k /\ Server.h_returned k = true
+    /\ Server.h_pc k = Server.HUnreg /\ Server.h_reg k = true /\ Server.mu_free s = false
+    /\ (exists f, Server.rd s = Server.RdFwd 0 f).
+Proof.
+  exists (sv_st sv_refute). eexists. vm_compute. repeat split. eexists. reflexivity.
+Qed.
 
 (* ---------- the hypotheses are satisfiable ---------- *)
 Definition reply (id b : Z) : env := mkEnv id (Some (MdOk 0)) None (Some b) (Some (MdOk 0)) false.
